@@ -85,7 +85,7 @@ def draw_fault(t, data: bytes, lang: str, allow_blowup: bool = True, force_blowu
     elif kind == "long_run":
         p = [t.pick([300, 2500, 9000], "fault.n"), t.draw(12, "fault.shape"), t.draw(P, "fault.pos")]
     elif kind == "huge_number":
-        p = [t.pick([40, 700, 4400, 20000], "fault.n"), t.draw(4, "fault.base")]
+        p = [t.pick([40, 700, 4400, 20000], "fault.n"), t.draw(4, "fault.base"), t.draw(2, "fault.inplace"), t.draw(P, "fault.pos")]
     elif kind == "escape_in_string":
         p = [t.draw(P, "fault.pos"), t.draw(10, "fault.esc")]
     elif kind == "many_funcs":
@@ -317,6 +317,12 @@ def apply(f: dict, data: bytes, lang: str) -> bytes:
         return _long_run(data, p[0], p[1], p[2], lang)
     if k == "huge_number":
         lit = [b"0x" + b"F" * p[0], b"9" * p[0], b"1" + b"0" * p[0] + b".5", b"0b" + b"1" * p[0]][p[1] % 4]
+        if len(p) > 2 and p[2]:
+            # in place: an existing literal (a call argument, a loop bound, a comparison operand ...) becomes huge
+            nums = list(re.finditer(rb"(?<![A-Za-z_0-9.])\d[\d_]*(?![\d.eExX])", data))
+            if nums:
+                m = nums[(p[3] * len(nums)) >> 20]
+                return data[:m.start()] + lit + data[m.end():]
         if lang == "python":
             return data + b"\n\ndef huge_value():\n    return " + lit + b"\n"
         if lang == "rust":
